@@ -120,7 +120,7 @@ fn strip_trace(steps: &[Step]) -> Vec<Step> {
     steps.to_vec()
 }
 
-pub fn check(_ctx: &Ctx, input: &Input) -> CaseResult {
+pub fn check(ctx: &Ctx, input: &Input) -> CaseResult {
     let mut out = CaseOut::default();
     let (bytes, origin, sb) = match input {
         Input::Choices { gen, bytes } => {
@@ -393,6 +393,7 @@ pub fn check(_ctx: &Ctx, input: &Input) -> CaseResult {
         let scratch = if read_mask & 4 != 0 { Some(m.locals.add(ValType::I32)) } else { None };
         let model2 = model.clone();
         let pt = param_types.clone();
+        let export_is_sole_declaration = crate::edits::sole_declaring_exports(&m).contains(&fid);
         let r = guard("replace_exported_func", || {
             m.replace_exported_func(fid, |(body, args)| build_body(body, args, &model2, &pt, read_mask, scratch))
         })?;
@@ -413,6 +414,18 @@ pub fn check(_ctx: &Ctx, input: &Input) -> CaseResult {
             Failure::new(format!("export-replacement:{}", f.signature), format!("{} [{}]", f.detail, origin))
         })?;
         if let Err(e) = validate_walrus(&edited) {
+            if export_is_sole_declaration && e.contains("undeclared function reference") {
+                // the retargeted export was what declared the original function
+                // for a `ref.func` in code: walrus does not re-declare it
+                ctx.known_or(
+                    &mut out,
+                    Failure::new(
+                        "export-replacement:invalid-output:undeclared function reference:export-was-the-only-declaration",
+                        format!("after replacing export {:?}: {} [{}]", ename, e, origin),
+                    ),
+                )?;
+                return Ok(out);
+            }
             return Err(Failure::new(
                 format!("export-replacement:invalid-output:{}", super::c02::normalise_msg(&e)),
                 format!("after replacing export {:?}: {} [{}]", ename, e, origin),
